@@ -146,8 +146,34 @@ def from_desc(d):
                    for q, a, X, r, push in d["trans"]], [dec(s) for s in d.get("states", [])])
 
 
+def repr_key(j):
+    """a hashable key of a JSON-encoded value"""
+    return json.dumps(j, sort_keys=True)
+
+
 def build_lib(d):
     from pyformlang.pda import PDA
+    if d.get("how") == "ctor_tf":
+        # the textbook 7-tuple: every component handed to the constructor, the transition function built
+        # beforehand from State / Symbol / StackSymbol objects of its own (equal to, not identical with, the others)
+        from pyformlang.pda import State, Symbol, StackSymbol, Epsilon
+        from pyformlang.pda.transition_function import TransitionFunction
+        tf = TransitionFunction()
+        states, syms, stack = set(), set(), set()
+        for (q, a, X, r, push) in d["trans"]:
+            tf.add_transition(State(dec(q)), Epsilon() if a is None else Symbol(dec(a)), StackSymbol(dec(X)),
+                              State(dec(r)), [StackSymbol(dec(y)) for y in push])
+            states |= {repr_key(q), repr_key(r)}
+            if a is not None:
+                syms.add(repr_key(a))
+            stack |= {repr_key(X)} | {repr_key(y) for y in push}
+        for s in d.get("states", []):
+            states.add(repr_key(s))
+        return PDA(states={dec(json.loads(s)) for s in states}, input_symbols={dec(json.loads(s)) for s in syms},
+                   stack_alphabet={dec(json.loads(s)) for s in stack}, transition_function=tf,
+                   start_state=dec(d["start"]) if d.get("start") is not None else None,
+                   start_stack_symbol=dec(d["z0"]) if d.get("z0") is not None else None,
+                   final_states={dec(f) for f in d.get("finals", [])})
     if d.get("how") == "ctor":
         p = PDA(start_state=dec(d["start"]) if d.get("start") is not None else None,
                 start_stack_symbol=dec(d["z0"]) if d.get("z0") is not None else None,
